@@ -406,23 +406,41 @@ def run_add_pilots(ctx):
     the tasks of the pilot which ended are failed, whichever position it had
     '''
     n = 0
-    for how in ('separate', 'bulk-p1p2', 'bulk-p2p1'):
+    for how, app_cb in itertools.product(('separate', 'bulk-p1p2', 'bulk-p2p1'),
+                                         ('none', 'raises', 'exits')):
         for dead in ('p1', 'p2', 'both'):
             for fin in rps.FINAL:
                 n += 1
                 cfg = (('p1', rps.AGENT_EXECUTING), ('p2', rps.AGENT_EXECUTING),
                        (None, rps.NEW))
                 w = World(cfg)
+                if app_cb != 'none':
+                    # the application's own pilot callback does not survive
+                    # a final state (the examples call sys.exit() there)
+                    def on_pilot(pilot, state, *a):
+                        if state in rps.FINAL:
+                            if app_cb == 'exits':
+                                raise SystemExit(1)
+                            raise RuntimeError('application callback')
+                    w.pm.register_callback(on_pilot)
+                how_ = how
+                how  = how_ if app_cb == 'none' else '%s:app-cb-%s' % (how_,
+                                                                      app_cb)
                 order = {'separate' : [['p1'], ['p2']],
                          'bulk-p1p2': [['p1', 'p2']],
-                         'bulk-p2p1': [['p2', 'p1']]}[how]
+                         'bulk-p2p1': [['p2', 'p1']]}[how_]
                 for bulk in order:
                     w.tm.add_pilots([w.pilots[p] for p in bulk])
                 for pid in (('p1', 'p2') if dead == 'both' else (dead,)):
-                    w.pm._state_sub_cb(rpc.STATE_PUBSUB, seams.wire(
-                        {'cmd': 'update',
-                         'arg': [{'uid': pid, 'type': 'pilot',
-                                  'state': fin}]}))
+                    try:
+                        w.pm._state_sub_cb(rpc.STATE_PUBSUB, seams.wire(
+                            {'cmd': 'update',
+                             'arg': [{'uid': pid, 'type': 'pilot',
+                                      'state': fin}]}))
+                    except BaseException:
+                        # the subscriber thread logs it / ends; what matters
+                        # is what happened to the tasks before
+                        pass
                 replay = {'add_pilots': [how, dead, fin]}
                 for uid, pid in (('t1', 'p1'), ('t2', 'p2')):
                     should = dead in (pid, 'both')
@@ -443,6 +461,7 @@ def run_add_pilots(ctx):
                                                   st)}, replay)
                 ctx.outcome(('add_pilots', how, dead, fin,
                              w.tasks['t1'].state, w.tasks['t2'].state))
+                how = how_
     ctx.cover(evaluations=n, add_pilots_cases=n)
 
 
